@@ -113,9 +113,15 @@ class GizaYamlDomain:
                             giza_file.diagnostics,
                         )
 
-                        if giza_file.pages is not None:
+                        if giza_file.pages:
                             for page in giza_file.pages:
                                 yield page, giza_file.diagnostics
+                        elif giza_file.diagnostics:
+                            # A file that generates no page (it could not be parsed): hand its
+                            # diagnostics to the caller the way a fresh parse does.
+                            all_diagnostics.setdefault(fileid, []).extend(
+                                giza_file.diagnostics
+                            )
                     continue
 
             # Otherwise, generate data anew
